@@ -29,7 +29,7 @@ const gap = config.SnapshotRoundGap
 
 // symbolic reference, resolved against the live state when the step runs
 type Ref struct {
-	Kind  string `json:"kind"`  // good|cur|final|head|unknown|zero
+	Kind  string `json:"kind"`  // good|oldgood|cur|final|head|unknown|zero
 	Chain int    `json:"chain"` // final/head: which chain
 	Back  int    `json:"back"`  // final: how many rounds before that chain's latest known final
 	Salt  uint64 `json:"salt"`  // unknown
@@ -94,6 +94,9 @@ type world struct {
 	ids    []crypto.Hash
 	chains []*kernel.Chain
 	finals [][]known // final rounds the harness has seen created, per chain
+	// hash the live round had at the previous start attempt of the chain (stale once
+	// another snapshot has been collected)
+	lastGood map[int]crypto.Hash
 }
 
 var custom *config.Custom
@@ -207,7 +210,7 @@ func newWorld(c *vh.Ctx, cs Case, tbl *[]string) (*world, string) {
 	if err != nil {
 		panic(err)
 	}
-	w := &world{dir: dir, store: store}
+	w := &world{dir: dir, store: store, lastGood: map[int]crypto.Hash{}}
 	idr := vh.NewRand(cs.Seed, "c20ids")
 	for i := 0; i < cs.K; i++ {
 		var id crypto.Hash
@@ -263,6 +266,11 @@ func (w *world) resolve(r Ref, self bool, ch int, tbl *[]string) crypto.Hash {
 			return cache.References.Self
 		}
 		return roundHash(w.ids[ch], cache.Number, cache.Snapshots, tbl)
+	case "oldgood":
+		if h, ok := w.lastGood[ch]; ok {
+			return h
+		}
+		return cache.References.Self
 	case "cur":
 		if self {
 			return cache.References.Self
@@ -339,7 +347,7 @@ func run(c *vh.Ctx, cs Case) {
 				s.Transactions = append(s.Transactions, small(t))
 			}
 			var err error
-			pan, _ := vh.Catch(func() { err = ch.VerifC20AddSnapshot(s) })
+			pan, _ := vh.Catch(func() { err = ch.VerifC20AddSnapshotViaCopy(s) })
 			class = map[bool]string{true: "1", false: "0"}[err != nil]
 			if pan {
 				class = "2"
@@ -349,7 +357,10 @@ func run(c *vh.Ctx, cs Case) {
 			self := w.resolve(op.Self, true, ci, &tbl)
 			ext := w.resolve(op.Ext, false, ci, &tbl)
 			if len(cache0.Snapshots) > 0 {
-				roundHash(id, cache0.Number, cache0.Snapshots, &tbl) // what asFinal will evaluate
+				h := roundHash(id, cache0.Number, cache0.Snapshots, &tbl) // what asFinal will evaluate
+				if op.Kind == "start" {
+					w.lastGood[ci] = h // (the references of this step are already resolved)
+				}
 			}
 			sanity := true
 			strict := (op.Kind == "start" && !op.Flag) || (op.Kind == "update" && op.Flag)
@@ -402,6 +413,16 @@ func run(c *vh.Ctx, cs Case) {
 					}
 					if cache1.References.Self != want || final1.Hash != want || self != want {
 						fail("self-not-previous-final", "an accepted start does not commit to the hash of the previous final round")
+					}
+					lo, hi := ^uint64(0), uint64(0)
+					for _, sn := range cache0.Snapshots {
+						lo, hi = min(lo, sn.Timestamp), max(hi, sn.Timestamp)
+					}
+					if final1.Start != lo || final1.End != hi {
+						fail("final-bounds-stale", "the final round's start/end are not the min/max of the snapshots collected in the closed round")
+					}
+					if fr0, _ := w.store.ReadRound(want); fr0 == nil || fr0.Hash != want || fr0.Timestamp != lo {
+						fail("durable-round-wrong", "the stored ROUND record of the closed round does not carry a fresh hash/start of all its snapshots")
 					}
 					w.finals[ci] = append(w.finals[ci], known{final1.Hash, final1.Number})
 					hr, _ := w.store.ReadRound(id)
@@ -549,10 +570,18 @@ func genHistory(c *vh.Ctx) Case {
 			cs.Ops = append(cs.Ops, op)
 		case 4, 5, 6:
 			op := Op{Kind: "start", Chain: ch, Self: Ref{Kind: "good"}, Ext: genRefExt(r, k, ch), Dt: 2*gap + r.U64()%gap, Flag: r.Chance(2, 3)}
-			if r.Chance(1, 10) {
-				op.Self = Ref{Kind: []string{"cur", "unknown"}[r.Intn(2)], Salt: r.U64()}
+			if r.Chance(1, 8) {
+				op.Self = Ref{Kind: []string{"cur", "unknown", "oldgood"}[r.Intn(3)], Salt: r.U64()}
 			}
 			cs.Ops = append(cs.Ops, op)
+			if r.Chance(1, 4) { // the same start again after one more snapshot was collected
+				more := Op{Kind: "add", Chain: ch, Dt: gap + 2 + r.U64()%(gap-4), Hash: nextHash, Txs: []uint64{5000 + nextHash}}
+				nextHash++
+				again := op
+				again.Self = Ref{Kind: []string{"good", "good", "oldgood"}[r.Intn(3)]}
+				again.Ext = Ref{Kind: "final", Chain: (ch + 1) % k}
+				cs.Ops = append(cs.Ops, more, again)
+			}
 		default:
 			op := Op{Kind: "update", Chain: ch, Self: Ref{Kind: "cur"}, Ext: genRefExt(r, k, ch), Dt: 2*gap + r.U64()%gap, Flag: r.Chance(1, 3)}
 			if r.Chance(1, 10) {
@@ -589,6 +618,14 @@ func corpus() []Case {
 		// empty-head updates: forward, self, stale, unknown, non-empty head
 		{Kind: "corpus", K: 3, Seed: 4, Base: b, Genesis: g, Ops: []Op{add(1, 1), start(1, fin(2, 0), true), upd(0, fin(1, 0), false), upd(0, fin(1, 1), false),
 			upd(0, fin(0, 0), false), upd(0, Ref{Kind: "unknown", Salt: 1}, false), upd(0, fin(2, 0), true), add(0, 2), upd(0, fin(2, 0), false)}},
+		// a start rejected on the live round (unknown external on the strict path; stale external),
+		// one more snapshot through the StateCopy path, then the start again: it must commit to
+		// the round as finally collected, and the hash of the earlier attempt must be refused
+		{Kind: "corpus", K: 3, Seed: 8, Base: b, Genesis: g, Ops: []Op{add(0, 1), start(0, Ref{Kind: "unknown", Salt: 3}, false), add(0, 2),
+			{Kind: "start", Chain: 0, Self: Ref{Kind: "oldgood"}, Ext: fin(1, 0), Dt: 2 * gap, Flag: true}, start(0, fin(1, 0), true)}},
+		{Kind: "corpus", K: 3, Seed: 9, Base: b, Genesis: g, Ops: []Op{add(1, 1), start(1, fin(2, 0), true), add(0, 2), start(0, fin(1, 0), true),
+			add(0, 3), start(0, fin(1, 1), true), add(0, 4), add(0, 5), start(0, fin(1, 0), false),
+			add(2, 6), start(2, fin(2, 0), true), add(2, 7), {Kind: "start", Chain: 2, Self: Ref{Kind: "oldgood"}, Ext: fin(0, 0), Dt: 2 * gap, Flag: false}, start(2, fin(0, 0), true)}},
 		// a reference to another chain's node id reads that chain's HEAD record
 		{Kind: "corpus-head-reference", K: 3, Seed: 5, Base: b, Genesis: g, Ops: []Op{add(0, 1), start(0, Ref{Kind: "head", Chain: 1}, true)}},
 		{Kind: "corpus-head-reference", K: 3, Seed: 6, Base: b, Genesis: g, Ops: []Op{upd(0, Ref{Kind: "head", Chain: 1}, false),
@@ -603,7 +640,8 @@ func main() {
 		"references to a node id), then random histories of 4..28 steps over 2..5 chains on one Badger store: live-round accepts, " +
 		"round starts (2/3 finalized path) and empty-head updates (1/3 strict) whose references are drawn from: latest / stale final " +
 		"of another chain, own chain, unknown, current, zero; 1/10 wrong self reference. Non-trivial = at least two transitions " +
-		"accepted; distinct by the whole history."
+		"accepted; distinct by the whole history. Snapshots are added through StateCopy + validateSnapshot + assignNewGraphRound; " +
+		"1/4 of the starts are repeated after one more snapshot, also with the hash of the earlier attempt (must be refused)."
 	if c.Replay != "" {
 		var cs Case
 		c.ReplayCase(&cs)
